@@ -34,9 +34,18 @@ pub struct Sink {
     pub perm: bool,
 }
 
+thread_local! {
+    /// a fault armed BEFORE the Cli is constructed (leading session op `X:<k>:<once|perm>`): consumed by the next Sink::new()
+    pub static INIT_FAULT: RefCell<Option<(usize, bool)>> = const { RefCell::new(None) };
+}
+
 impl Sink {
     pub fn new() -> Self {
-        Sink { log: vec![], calls: 0, fail_at: None, perm: false }
+        let init = INIT_FAULT.with(|f| f.borrow_mut().take());
+        match init {
+            Some((k, perm)) => Sink { log: vec![], calls: 0, fail_at: Some(k), perm },
+            None => Sink { log: vec![], calls: 0, fail_at: None, perm: false },
+        }
     }
     pub fn bytes(&self) -> Vec<u8> {
         let mut v = vec![];
@@ -317,7 +326,14 @@ pub fn ses(line: &str) -> String {
     let hcap: usize = p[1].parse().unwrap();
     let pi: usize = p[2].parse().unwrap();
     let cmdset = p[3];
-    let ops = if p.len() > 4 { p[4] } else { "" };
+    let mut ops = if p.len() > 4 { p[4] } else { "" };
+    if let Some(rest) = ops.strip_prefix("X:") {
+        // construction itself runs against a failing sink
+        let (spec, tail) = rest.split_once(';').unwrap_or((rest, ""));
+        let (k, mode) = spec.split_once(':').unwrap();
+        INIT_FAULT.with(|f| *f.borrow_mut() = Some((k.parse().unwrap(), mode == "perm")));
+        ops = tail;
+    }
     match cmdset {
         "raw" => ses_raw(cap, hcap, pi, ops),
         other => crate::gen_decls::ses_decl(other, cap, hcap, pi, ops),
@@ -419,8 +435,8 @@ fn ses_raw(cap: usize, hcap: usize, pi: usize, ops: &str) -> String {
     let mut hbuf = vec![0u8; hcap];
     // the default prompt is PROMPTS[1]: with it (and an odd command buffer) the deprecated constructor Cli::new is used instead of the builder
     #[allow(deprecated)]
-    let mut cli = if pi == 1 && cap % 2 == 1 {
-        embedded_cli::cli::Cli::new(Sink::new(), cbuf.as_mut_slice(), hbuf.as_mut_slice()).unwrap()
+    let built = if pi == 1 && cap % 2 == 1 {
+        embedded_cli::cli::Cli::new(Sink::new(), cbuf.as_mut_slice(), hbuf.as_mut_slice())
     } else {
         CliBuilder::default()
             .writer(Sink::new())
@@ -428,7 +444,11 @@ fn ses_raw(cap: usize, hcap: usize, pi: usize, ops: &str) -> String {
             .history_buffer(hbuf.as_mut_slice())
             .prompt(PROMPTS[pi])
             .build()
-            .unwrap()
+    };
+    let mut cli = match built {
+        Ok(c) => c,
+        // construction reported the sink's failure: there is no Cli (and the sink went with the builder)
+        Err(_) => return format!("err|.|0|-|{}|-|?", pi),
     };
     let calls: Rc<RefCell<Vec<String>>> = Rc::new(RefCell::new(vec![]));
     let calls2 = calls.clone();
